@@ -38,7 +38,7 @@ KNOBS = {
     "middlewares": (0, 3),
     "outcomes": {"ret": 6, "exc": 4, "baseexc": 2, "nores": 2, "requeue": 0},
     "p_probe": 0.85,
-    "durations": {"zero": 3, "tiny": 3, "short": 4, "medium": 3, "long": 1, "poll": 1, "tie": 3},
+    "durations": {"zero": 3, "tiny": 3, "short": 4, "medium": 3, "long": 1, "poll": 1, "tie": 3, "vlong": 1},
 }
 
 
